@@ -115,7 +115,7 @@ pub struct Decorated {
 }
 
 /// every single insertion of `what` ∈ {blank line, block comment, line comment on its own line, trailing line comment,
-/// hash comment} at every token boundary of `text` (including before the first and after the last token)
+/// hash comment, empty / blank / doc / multi-line block comment} at every token boundary of `text` (including before the first and after the last token)
 pub fn decorations(text: &str, with_layout: bool) -> Vec<Decorated> {
 	let toks = tokens(text);
 	let mut out = Vec::new();
@@ -129,6 +129,10 @@ pub fn decorations(text: &str, with_layout: bool) -> Vec<Decorated> {
 			("line comment on its own line", format!("\n// c{b}\n")),
 			("trailing line comment", format!(" // c{b}\n")),
 			("hash comment on its own line", format!("\n# c{b}\n")),
+			("empty block comment", " /**/ ".to_owned()),
+			("blank block comment", " /* */ ".to_owned()),
+			("doc comment", format!(" /** d{b} */ ")),
+			("multi-line block comment", format!("\n/*\n * m{b}\n   n{b}\n */\n")),
 		];
 		if with_layout {
 			ins.push(("newline", "\n".to_owned()));
